@@ -6,7 +6,7 @@ CF = ['-DURCU_VERIF_CDS_WFS_ADAPT_ATTEMPTS=2']
 
 def ob(name, kind, scen, pop, threads, R, tso=0, desc='', wit=None, extra_cf=(), pre=('prologue',), post=('epilogue',), live=True):
     return conc(name, 'c11_stack.c', threads, R, cflags=['-DKIND=%d' % kind, '-DSCEN=%d' % scen, '-DPOP=%d' % pop] + CF + list(extra_cf),
-                tso=tso, desc=desc, wit=wit, pre=pre, post=post, live=live, post_unwind=20)
+                tso=tso, desc=desc, wit=wit, pre=pre, post=post, live=live, post_unwind=20, extra={'mem_gb': 8})
 
 
 def obligations(tier):
